@@ -34,7 +34,7 @@ RULE = (
     "(document text, position, path); non-trivial = the planted line is beyond line 1 and at least one "
     "call-site frame lies in a template."
 )
-RULE += ' added since: positions for-iterable, loop body, elif/while tests, <%call expr>, tag attribute, include file expression, functions of a first and second <%! %> block (also through a namespace), relay back through caller.body(); warnings from literal comparisons, invalid escapes in for iterables, def bodies and module blocks; relative module_directory / module_filename; alternating frames of two templates.'
+RULE += ' added since: positions for-iterable, loop body, elif/while tests, <%call expr>, tag attribute, include file expression, functions of a first and second <%! %> block (also through a namespace), relay back through caller.body(); warnings from literal comparisons, invalid escapes in for iterables, def bodies and module blocks; relative module_directory / module_filename; alternating frames of two templates. module directory reached through a symbolic link.'
 ASSUMPTIONS = [
     "generated glue frames that correspond to no construct (def stubs, cache wrappers) are only required to carry "
     "the right template identity and a line inside the source",
